@@ -291,6 +291,7 @@ class HTTPRequestParser:
             # never need to deal with chunked requests, downstream clients
             # should not see the HTTP_TRANSFER_ENCODING header; we pop it
             # here
+            has_te = "TRANSFER_ENCODING" in headers
             te = headers.pop("TRANSFER_ENCODING", "")
 
             # NB: We can not just call bare strip() here because it will also
@@ -341,6 +342,11 @@ class HTTPRequestParser:
                 raise TransferEncodingNotImplemented(
                     "Transfer-Encoding requested is not supported."
                 )
+            elif has_te and "CONTENT_LENGTH" in headers:
+                # a Transfer-Encoding field that lists no coding at all: the
+                # body is framed by Content-Length, but a message carrying
+                # both fields must be the last one on the connection
+                self.connection_close = True
 
             # Expect is a list-valued field; a client (or an intermediary
             # joining repeated fields) may send "100-continue, 100-continue"
